@@ -6,8 +6,10 @@ import (
 	"fmt"
 	"io"
 	"net/http"
+	"net/http/httptest"
 	"strings"
 	"sync"
+	"sync/atomic"
 	"time"
 
 	jsonrpc "github.com/filecoin-project/go-jsonrpc"
@@ -501,6 +503,10 @@ func (c04) Plan(tier string, seed int64) []core.Scenario {
 	for i, tr := range []string{"http", "ws", "http", "custom"} {
 		out = append(out, core.Scenario{Kind: "note-then-cancel", Seed: seed*43 + int64(i), N: map[string]int{"n": 60, "noise": i % 3}, S: map[string]string{"transport": tr}})
 	}
+	// an intermediary that has forwarded the request and then answers with a gateway error of its own
+	for i, code := range []int{502, 503, 504, 500, 429} {
+		out = append(out, core.Scenario{Kind: "gateway-error", Seed: seed*47 + int64(i), N: map[string]int{"code": code, "noise": i % 3}, S: map[string]string{}})
+	}
 	for i := 0; i < cuts; i++ {
 		out = append(out, core.Scenario{Kind: "httpcut", Seed: seed*31 + int64(i), N: map[string]int{"dir": i % 2, "after": 1 + (i/2)*13%400, "fk": i % 3}, S: map[string]string{}})
 	}
@@ -525,6 +531,8 @@ func (c04) Run(sc core.Scenario) core.Result {
 		runCancelledBig04(sc, r4)
 	case "note-then-cancel":
 		runNoteThenCancel04(sc, r4)
+	case "gateway-error":
+		runGatewayError04(sc, r4)
 	default:
 		runFault(sc, r3, r4)
 	}
@@ -1054,4 +1062,72 @@ func runDoneCtxOutage(sc core.Scenario, r *core.R) {
 	r.Obs("calls", int64(len(outs)))
 	r.Sig(core.Log.Signature())
 	r.Sample(map[string]interface{}{"scenario": "calls with done or expiring contexts during an outage", "kind": kind, "calls": len(outs)})
+}
+
+// runGatewayError04: the http client talks to the server through an intermediary which forwards every
+// request, lets the server execute it, and then answers the client with an error status of its own (the
+// response was lost behind a gateway: 502/503/504, or 500/429). The library must not send the request
+// again on its own: plain calls, notifications and failing calls execute exactly once.
+func runGatewayError04(sc core.Scenario, r *core.R) {
+	code := sc.I("code")
+	env := NewEnv(EnvOpt{NoProxy: true})
+	defer env.Shutdown()
+	backend := "http://" + env.TS.Listener.Addr().String()
+	var forwarded int64
+	gw := httptest.NewServer(http.HandlerFunc(func(w http.ResponseWriter, q *http.Request) {
+		body, _ := io.ReadAll(q.Body)
+		resp, err := http.Post(backend, "application/json", bytes.NewReader(body))
+		if err == nil {
+			io.Copy(io.Discard, resp.Body)
+			resp.Body.Close()
+		}
+		atomic.AddInt64(&forwarded, 1)
+		http.Error(w, "upstream response lost", code)
+	}))
+	defer gw.Close()
+	var cl Client
+	closer, err := jsonrpc.NewMergeClient(context.Background(), gw.URL, "S", []interface{}{&cl.Client}, nil)
+	if err != nil {
+		r.Inconclusive("client: %v", err)
+		return
+	}
+	defer closer()
+	bg := context.Background()
+	type one struct {
+		tok  string
+		kind string
+		o    *Outcome
+	}
+	var all []one
+	for i := 0; i < 4; i++ {
+		t := Tok("g")
+		all = append(all, one{t, "echo", Go(t, func() (string, error) { return cl.Echo(bg, t, "") })})
+		t2 := Tok("g")
+		all = append(all, one{t2, "note", Go(t2, func() (string, error) { return "", cl.Note(bg, t2) })})
+		t3 := Tok("g")
+		all = append(all, one{t3, "fail", Go(t3, func() (string, error) { return cl.Fail(bg, t3) })})
+		t4 := Tok("g")
+		all = append(all, one{t4, "echoNR", Go(t4, func() (string, error) { return cl.EchoNR(bg, t4, "") })})
+	}
+	for _, x := range all {
+		if !x.o.Wait(2 * core.Grace) {
+			r.Violate("call-hang:gateway", "%s call %s through a gateway answering %d never returned", x.kind, x.tok, code)
+			continue
+		}
+		if x.kind != "note" && x.o.Err == nil {
+			r.Violate("answer-without-exec", "%s call %s returned %q without error although the gateway answered %d", x.kind, x.tok, core.Trunc(x.o.Val, 40), code)
+		}
+	}
+	time.Sleep(50 * time.Millisecond)
+	for _, x := range all {
+		if n := env.Svc.Enters(x.tok); n > 1 {
+			r.Violate("multi-exec:"+x.kind, "untagged %s call %s executed %d times behind a gateway that answered %d after forwarding the request: the library re-sent it", x.kind, x.tok, n, code)
+		}
+	}
+	if f := atomic.LoadInt64(&forwarded); f > int64(len(all)) {
+		r.Violate("resend:gateway", "the gateway saw %d requests for %d calls (status %d)", f, len(all), code)
+	}
+	r.Key(fmt.Sprintf("gateway-error %d", code), true)
+	r.Obs("gateway_calls", int64(len(all)))
+	r.Sample(map[string]interface{}{"scenario": "intermediary answers with an error status after forwarding", "status": code, "calls": len(all), "requests_seen_by_gateway": atomic.LoadInt64(&forwarded)})
 }
